@@ -2,8 +2,8 @@
 from vlib import mprop
 from vlib.mirsmt import c23
 
-ENCODED = ["MachineState::try_arg (all paths): the Str and Lis arms for both integer representations of N, "
-           "and the error mapping",
+ENCODED = ["MachineState::try_arg (all paths): the Str, Lis and string (PStrLoc) arms for both integer "
+           "representations of N, and the error mapping",
            "MachineState::try_functor (all paths): inspection by cell kind, construction-mode errors and "
            "outcomes; try_functor_unify_components",
            "MachineState::try_functor_fabricate_struct and its two writer closures (all paths; the loop as one "
@@ -17,7 +17,7 @@ ASSUME = ["Number::try_from, get_num, the usize conversion of a bignum cell, get
           "reservation (C33 decides the writer's capacity arithmetic); Range<usize>::next yields start..end once each"]
 BOUNDS = "every N, arity, location as 64-bit words"
 OUTSIDE = ("=../2, copy_term/2, term_variables/2, ground/1, subsumes_term/2 (MachineState-wide "
-           "traversals / Prolog source), the partial-string arm of arg/3")
+           "traversals / Prolog source), the character iterator behind the string arm of arg/3 (C20)")
 
 
 def run(tier):
